@@ -350,7 +350,11 @@ func (d *Decoder) scan(data []byte, atEOF bool) (advance int, token []byte, err 
 	}
 
 	// Look for new blocks
-	switch l := startsBlockQuote(data); {
+	switch l := startsBlockQuote(data, atEOF); {
+	case l < 0:
+		// The block quote start token may continue in data that has not been
+		// read yet, request more.
+		return 0, nil, nil
 	case l > 0 && !d.quoteStarted:
 		// If we haven't yet consumed our block quote start token, do so.
 		d.mask |= BlockQuote | BlockQuoteStart
@@ -562,7 +566,9 @@ func (d *Decoder) scanSpan(data []byte, atEOF bool) (advance int, token []byte, 
 
 // startsBlockQuote looks for a block quote start token at the beginning of data
 // and returns its length (or 0 if one was not found).
-func startsBlockQuote(data []byte) int {
+// If the end of the token cannot be determined without more data (and more data
+// may follow) it returns -1.
+func startsBlockQuote(data []byte, atEOF bool) int {
 	if len(data) == 0 || data[0] != '>' {
 		return 0
 	}
@@ -570,12 +576,18 @@ func startsBlockQuote(data []byte) int {
 	data = data[1:]
 	l := 1
 	for len(data) > 0 {
+		if !atEOF && !utf8.FullRune(data) {
+			return -1
+		}
 		r, size := utf8.DecodeRune(data)
 		if !isSpace(r) {
 			return l
 		}
 		l += size
 		data = data[size:]
+	}
+	if !atEOF {
+		return -1
 	}
 	return l
 }
